@@ -235,6 +235,11 @@ class C01(Check):
         for t in ("affine-int", "similarity-int", "translation-int"):
             out.append(("warp_to_shape", t, 1))
             out.append(("warp_to_mask", t, 1))
+        # warps given as ALIGNMENT objects fitted to noisy correspondences (their pseudoinverse is a route of its own:
+        # the inverse of the fitted map, not a fit in the other direction)
+        for t in ("alignment-affine", "alignment-similarity"):
+            out.append(("warp_to_shape", t, 1))
+            out.append(("warp_to_mask", t, 1))
         # pure translations whose sampled window stays inside the source: integer, fraction below and above one half,
         # negative fraction (each rounds differently under floor / truncation / round-to-nearest)
         for shift in ((1.0, 2.0), (1.3, 2.4), (2.6, 1.7), (0.6, 0.7)):
@@ -359,6 +364,15 @@ class C01(Check):
             return cls(np.array(h, dtype=np.int64)), None
         if name in ("translation", "similarity", "affine"):
             return self._affine_letter(name, nd, img.shape, tpl_shape), None
+        if name in ("alignment-affine", "alignment-similarity"):
+            base = self._affine_letter(name[len("alignment-"):], nd, img.shape, tpl_shape)
+            r = rs(self.seed, "c01align", name, nd)
+            T_ = np.array(tpl_shape, dtype=float)
+            P = r.rand(7, nd) * (T_ - 1)
+            Q = base.apply(P) + 0.6 * (r.rand(7, nd) - 0.5)  # not exactly related: the fit has a residual
+            cls = mt.AlignmentAffine if name == "alignment-affine" else mt.AlignmentSimilarity
+            self.note("warp:%s" % name)
+            return cls(PointCloud(P), PointCloud(Q)), None
         # control points in the source image = all landmark points + the 4 corners of an inner box
         S = np.array(img.shape, dtype=float)
         lms = np.vstack([img.landmarks[g].points for g in img.landmarks])
@@ -759,7 +773,7 @@ class C01(Check):
 
     # ------------------------------------------------------------------ reporting
     def vacuity(self, notes, stats):
-        need = ["pixels-compared", "outside-pixels-compared", "outside-mask-compared", "mask-compared", "landmarks-compared", "samples-compared", "pyramid:levels", "gaussian_pyramid:levels", "warp_to_mask:BooleanImage", "warp_to_shape:MaskedImage", "rotate:BooleanImage", "crop_to_true_mask:MaskedImage", "rescale:Image", "reuse:tps-reused", "reuse:pwa-reused", "refused:first", "refused:repeated"]
+        need = ["pixels-compared", "outside-pixels-compared", "outside-mask-compared", "mask-compared", "landmarks-compared", "samples-compared", "pyramid:levels", "gaussian_pyramid:levels", "warp_to_mask:BooleanImage", "warp_to_shape:MaskedImage", "rotate:BooleanImage", "crop_to_true_mask:MaskedImage", "rescale:Image", "reuse:tps-reused", "reuse:pwa-reused", "refused:first", "refused:repeated", "warp:alignment-affine", "warp:alignment-similarity"]
         return ["outcome %s never produced" % n for n in need if not notes.get(n)]
 
     def rule(self):
